@@ -114,6 +114,7 @@ pub fn run_check(prop: &str, tier: &str) -> i32 {
     let thorough = tier == "thorough";
     let budget = if thorough { 900.0 } else { 40.0 };
     let mut report = Report::new(prop, tier, "model_checking");
+    crate::util::start_watchdog(prop, tier, 30);
     match prop {
         "C01" => {
             let mut s = suites::all_suites(thorough);
@@ -176,7 +177,10 @@ pub fn run_check(prop: &str, tier: &str) -> i32 {
             let bound = if thorough { 3 } else { 2 };
             let mut progs = c08::contention_programs(thorough);
             progs.extend(c08::programs(false).into_iter().step_by(5));
-            schedprops::run_programs(progs, bound, 4000, budget, &schedprops::judge_linearizable, None, &["C18"], &mut report);
+            schedprops::run_programs(progs, bound, 4000, budget * 0.8, &schedprops::judge_linearizable, None, &["C18"], &mut report);
+            // every call of deep sequential histories on (nearly) full devices, under the call watchdog
+            let small: Vec<Suite> = suites::partition_suites(thorough).into_iter().filter(|s| s.name.starts_with("part-small")).map(|mut s| { s.log_io = false; s }).collect();
+            seq_check(prop, tier, small, &["C18"], budget * 0.2, &mut report);
             report.set("explanation", "termination oracle: an execution must end with every thread finished within the decision horizon; 'no enabled thread' is a deadlock, the horizon a livelock; contention programs cover concurrent flush callers, flush vs periodic tick, full device, reader held inside a read");
         }
         "C09" => {
